@@ -31,18 +31,16 @@ import (
 )
 
 type Input struct {
-	Kind      string   `json:"kind"`
-	TokenFile *hx.B    `json:"token_file"`          // content the token file is given before the first start (nil: absent)
-	TmpFile   *hx.B    `json:"tmp_file,omitempty"`  // content token.tmp is given before the first start (nil: absent)
-	Reachable bool     `json:"reachable"`           // the pre-seeded state is one a kill during a first start (before or after the WithToken repair) can leave
-	SeedKeys  []string `json:"seed_keys,omitempty"` // namespaces given a pemkey without pemcert (kill between the two Sets)
-	Kill      []string `json:"kill,omitempty"`      // services of a first start that is killed ...
-	KillMs    int      `json:"kill_ms,omitempty"`   // ... this long after it began
-	// ... or, KillItems n > 0: by itself, the moment n of the identity items its instances create are in the store
-	// (crash point at storage granularity: a watcher goroutine inside that child, see watchItems)
-	KillItems int        `json:"kill_items,omitempty"`
-	Runs      [][]string `json:"runs"`              // service instances configured in each start
-	Overlap   []string   `json:"overlap,omitempty"` // per start: "" | "overlap" (attempted while the previous start's process is still
+	Kind      string     `json:"kind"`
+	TokenFile *hx.B      `json:"token_file"`           // content the token file is given before the first start (nil: absent)
+	TmpFile   *hx.B      `json:"tmp_file,omitempty"`   // content token.tmp is given before the first start (nil: absent)
+	Reachable bool       `json:"reachable"`            // the pre-seeded state is one a kill during a first start (before or after the WithToken repair) can leave
+	SeedKeys  []string   `json:"seed_keys,omitempty"`  // namespaces given a pemkey without pemcert (kill between the two Sets)
+	Kill      []string   `json:"kill,omitempty"`       // services of a first start that is killed ...
+	KillMs    int        `json:"kill_ms,omitempty"`    // ... this long after it began
+	KillItems int        `json:"kill_items,omitempty"` // ... or, n > 0: by itself, the moment n of the identity items its instances create are stored (watchItems)
+	Runs      [][]string `json:"runs"`                 // service instances configured in each start
+	Overlap   []string   `json:"overlap,omitempty"`    // per start: "" | "overlap" (attempted while the previous start's process is still
 	// running on the directory) | "flock" (attempted while the harness holds badger's directory lock)
 	Wiring *Wiring `json:"wiring,omitempty"` // capture channels and [[filter]] sections of every start (nil: only the catch-all)
 	// how the data directory is spelled in each start: abs | slash | dotdot | rel | reldot | relup | tilde | tildeslash
@@ -909,27 +907,11 @@ func generate(r *hx.Rand, tier string) []Input {
 		in.Runs = [][]string{first, genSet(r, 1), []string{"ssh", "ftp", "smtp", "ldap", "agent"}}
 		ins = append(ins, in)
 	}
-	// (4) kills of a starting child at random instants
-	nk, ntk, killMax := 6, 6, 1000
-	if big { // more children run at once, a start takes longer
-		nk, ntk, killMax = 30, 30, 1600
-	}
-	for i := 0; i < nk; i++ {
-		set := []string{"ssh", "ftp", "smtp", "ldap", "agent"}
-		if i%3 == 2 {
-			set = genSet(r, 2)
-		}
-		ins = append(ins, Input{Kind: "kill-start", Reachable: true, Kill: set, KillMs: r.Range(0, killMax),
-			Runs: [][]string{set, []string{"ssh", "ftp", "smtp", "ldap", "agent"}}})
-	}
-	for i := 0; i < ntk; i++ {
-		ins = append(ins, Input{Kind: "kill-token-start", Reachable: true, Kill: []string{}, KillMs: r.Range(0, 12), Runs: tokenOnly(2)})
-	}
-	// (5) crash points at STORAGE granularity: the first start kills itself the moment n of the identity items its
-	// instances create are stored, n = 1..all of them; then undisturbed starts.  The state between the two items of a
-	// key/certificate pair (n odd within a pair) is the one that matters: those n are repeated (the window between two
-	// back-to-back Sets is microseconds wide; a kill that lands late leaves a completed-looking state), each
-	// repetition followed by a different history
+	// (5) (listed before (4): its replays are the repeatable ones) crash points at STORAGE granularity: the first
+	// start kills itself the moment n of the identity items its instances create are stored, n = 1..all of them
+	// (watchItems in child.go); then undisturbed starts on what was left.  The state between the two items of a
+	// key/certificate pair is the one that matters: for the single-service sets it is aimed at killReps times (a
+	// kill that lands late leaves a completed-looking state), each time followed by a different history
 	ksets := [][]string{{"ldap"}, {"ftp"}, {"smtp"}, {"ldap", "ftp", "smtp"}, {"ssh", "agent"}}
 	if big {
 		ksets = append(ksets, []string{"ftp", "ldap"}, []string{"ssh", "smtp"}, []string{"ldap", "ldap2"}, []string{"ssh", "ssh-auth", "agent"}, all5)
@@ -947,6 +929,22 @@ func generate(r *hx.Rand, tier string) []Input {
 				ins = append(ins, Input{Kind: "kill-items", Reachable: true, Kill: set, KillItems: n, Runs: follow[(k+n-1)%len(follow)]})
 			}
 		}
+	}
+	// (4) kills of a starting child at random instants
+	nk, ntk, killMax := 6, 6, 1000
+	if big { // more children run at once, a start takes longer
+		nk, ntk, killMax = 30, 30, 1600
+	}
+	for i := 0; i < nk; i++ {
+		set := []string{"ssh", "ftp", "smtp", "ldap", "agent"}
+		if i%3 == 2 {
+			set = genSet(r, 2)
+		}
+		ins = append(ins, Input{Kind: "kill-start", Reachable: true, Kill: set, KillMs: r.Range(0, killMax),
+			Runs: [][]string{set, []string{"ssh", "ftp", "smtp", "ldap", "agent"}}})
+	}
+	for i := 0; i < ntk; i++ {
+		ins = append(ins, Input{Kind: "kill-token-start", Reachable: true, Kill: []string{}, KillMs: r.Range(0, 12), Runs: tokenOnly(2)})
 	}
 	return ins
 }
